@@ -125,16 +125,16 @@ type env struct {
 	node  *gomavlib.Node
 	start time.Time
 
-	mu      sync.Mutex // application-level registry shared by application tasks (as a real application would)
-	open    []*gomavlib.Channel
-	links   []*link
-	nlinks  int
-	stopAll bool
-	cons    *consumer
-	writers []*writer
-	closed  bool
-	started bool
-	peerNoRead bool // odd-numbered peer links never read what the node writes
+	mu               sync.Mutex // application-level registry shared by application tasks (as a real application would)
+	open             []*gomavlib.Channel
+	links            []*link
+	nlinks           int
+	stopAll          bool
+	cons             *consumer
+	writers          []*writer
+	closed           bool
+	started          bool
+	peerNoRead       bool // odd-numbered peer links never read what the node writes
 	peerAPHeartbeats bool // peers also send ArduPilot heartbeats from fresh identities
 }
 
